@@ -53,7 +53,7 @@ TABLE = {
         "C01 wrong-value (machine; literal group taken over its whole format space)"),
     "S4-C02-pos-write-guard": ("C02", "independent sub-agent (round 4)",
         "output with compressed -> dense -> compressed levels (sds...); a stored upper coordinate starting with empty fibres after an earlier stored entry",
-        "C02 (pipeline target sweep: every target format of the order-3 copy)"),
+        "C02 unreadable-pos-uninit (pipeline target sweep: every target format of the order-3 copy)"),
     "S4-C03-outer-flag-on-fill": ("C03", "independent sub-agent (round 4)",
         "ssd-like output (two compressed levels above a trailing dense one); a fill arm running in a slice with no real entry below it (dense level above a compressed one in the operand, empty fibre)",
         "missed at first (the quick target sweep used one operand format, d0s1s2, whose fibres are never empty); C03 phantom after the sweep got operand formats with a dense level above a compressed one"),
@@ -79,7 +79,7 @@ TABLE = {
         "a shared index whose first-visited participant has size 0 and a later one a non-zero size",
         "missed by construction before (dimension faults were +-1 on sizes >= 2); C10 after the dimzero fault was added to CallProtocol.tla"),
     "S4-C11-input-ordering-inverse": ("C11", "independent sub-agent (round 4)",
-        "an operand of order >= 3 whose mode ordering is a 3-cycle (not its own inverse)", "C11 / C01 wrong-value"),
+        "an operand of order >= 3 whose mode ordering is a 3-cycle (not its own inverse)", "C11 wrong-value / crash (order-3 simulation of Operators.tla)"),
     "S4-C12-order-zero-falsy": ("C12", "independent sub-agent (round 4)",
         "a tensor first referenced with zero indexes and later with one or more (B() + B(i))", "C12 invalid-assignment-accepted"),
     "S4-C13-pos-shrink-live": ("C13", "independent sub-agent (round 4)",
